@@ -176,3 +176,21 @@ CHECKS['C08'] = dict(
     technique='explicit-state search over API histories on the real code, differential oracle in every state',
     assumptions=[],
 )
+
+from checks_py import stream_simple
+
+CHECKS['C14'] = dict(
+    level='model_checking',
+    steps=[dict(mode='asan', bin='c14_lz4'), dict(mode='asan', bin='c14_pair'),
+           dict(name='transparency', py=stream_simple('transparency', 'lz4enum.py', 'c14_transparency'), targets=[('asan', 'c14_transparency')])],
+    rule='decoder component on exact-size guard-page input and output buffers vs a byte-at-a-time reference LZ4 block decoder: (a) ALL blocks of <=2 sequences + final literals over literal lengths {0,1,7,8,14,15,16,270} x match lengths {4,5,18,19,20,274} x offsets {1,2,3,7,8,9,produced,produced+1,0} '
+         'x announced size {exact,-1,+1,+8}, and all 3-sequence blocks over reduced sets; (b) every truncation of valid seed blocks; (c) every single-byte deviation (all 255 values; thorough: x all token bytes) of valid seed blocks <=48 bytes; (d) ALL byte strings of length 13 (thorough 14) over {00,10,1F,F0}. '
+         'Oracle: no fault, return in {-1} u [0,size]; size returned == announced size only if the reference decodes to exactly those bytes; valid shrinking encodings obeying the end-of-block rules must be accepted. '
+         'Transparency: S-full with Silf / Glat / both compressed under EVERY encoding that differs from the greedy parse in 1 decision (thorough: 2 nearby decisions) out of {literal instead of match, shortest match, farthest offset, 19-byte match (length-extension byte)}: must load (options 0 and 7) and give the same face dump and the same segments for all strings <=2 (thorough <=3) over 9 characters x dir 0/1 as the uncompressed font; '
+         'shipped pair Awami_test / Awami_compressed_test on the awami corpus x dir {1,3} x options {0,7}',
+    state_meaning='one compressed block (or one compressed font); transitions = decoder runs compared with the reference decoder / shapings compared with the uncompressed font',
+    level_text='Exhaustive enumeration of structured LZ4 blocks, truncations and byte deviations against a reference decoder on guard-paged buffers; enumeration of valid encodings of real tables for the transparency clause.',
+    level_note='Trusted: reference decoder and enumerating encoder (gen/lz4enum.py), guard pages. Lengths, offsets and decision deviations are bounded sets.',
+    technique='exhaustive bounded input enumeration on the real code vs reference decoder; enumerated valid encodings with differential oracle',
+    assumptions=['success of lz4::decompress is judged as Face::Table does: returned size == announced size'],
+)
